@@ -44,8 +44,10 @@ def main():
                                    capture_output=True, text=True, env=env, cwd=VERIF)
                 lines = [l for l in r.stdout.splitlines() if l.startswith(("VIOLATION", "UNDECIDED", "CHECKER", "KNOWN"))]
                 ok = (r.returncode == m.get("expect", 1))
+                vio = [l for l in lines if l.startswith("VIOLATION")]
+                replayed = sum(1 for l in vio if not l.rstrip().endswith("no-failing-input-found"))
                 print(f"{'ok ' if ok else 'MISS'} {m['name']:<55} {prop} exit={r.returncode} expect={m.get('expect', 1)} "
-                      f"{(lines[0][:110] if lines else '')}")
+                      f"violations={len(vio)} replayed-on-real-code={replayed} {(lines[0][:90] if lines else '')}")
                 if not ok:
                     bad += 1
                     for l in lines[:6]:
